@@ -37,7 +37,9 @@ def _canon(site, focal_hint=None):
     rank = {n: i for i, n in enumerate(order)}
     pairs = sorted(tuple(sorted((rank[a], rank[b]))) for (arr, (a, b), pos) in site.tests
                    if pos)
-    return {"roles": order, "pairs": sorted(set(pairs)),
+    # orientation as written: A[a, b] tests the link a -> b
+    arcs = sorted({(rank[a], rank[b]) for (arr, (a, b), pos) in site.tests if pos})
+    return {"roles": order, "pairs": sorted(set(pairs)), "arcs": arcs,
             "domains": [doms[n] for n in order]}
 
 
@@ -150,6 +152,18 @@ def x1(run: Run, prog: Program, cy: CyProgram):
                         f"compiled {kname} and its `_sparse` sibling {pf.qualname} count "
                         f"the {role} under different conditions: {what} (roles ranked by "
                         f"loop nesting: 0 = node of group 1, 1/2 = nodes of group 2)")
+            # same orientation of every tested link (matters on directed networks)
+            if ok:
+                oka = a["arcs"] == b["arcs"]
+                run.oblige("X1", inst + ":orientation", oka, sample={
+                    "compiled": a["arcs"], "sparse": b["arcs"]})
+                if not oka:
+                    run.add("X1", f"{kname}/{pname}/{role}/orientation",
+                            f"{kf.module.relpath}:{ksites[kc].line}",
+                            f"compiled {kname} and its `_sparse` sibling {pf.qualname} test "
+                            f"the same links for the {role} but in different directions: "
+                            f"arcs {a['arcs']} vs {b['arcs']} (rank -> rank; 0 = node of "
+                            f"group 1): on directed networks the two variants disagree")
             # completeness of the triangle motif: 3 roles -> 3 pairs
             if role == "numerator":
                 for nm, c, fn, st in ((kname, a, kf, ksites[kc]), (pname, b, pf, psites[kc])):
@@ -279,6 +293,49 @@ def x2(run: Run, prog: Program):
     if n == 0:
         run.unknowns.append("X2: no role-suffixed partner locals found; role agreement "
                             "not decided")
+
+
+ORDER_NORMALISING = ("subgraph", "induced_subgraph")
+
+
+def x7(run: Run, prog: Program):
+    """Node lists arrive "in arbitrary order" and the result is indexed in the
+    caller's order.  igraph's `subgraph(vertices)` returns the induced subgraph
+    with its vertices in increasing index order, whatever order was asked for:
+    a method that builds a per-node result from `self.graph.subgraph(node_list)`
+    must map the rows back (an argsort of the list), or not go through igraph."""
+    n = 0
+    for cname in ("InteractingNetworks",):
+        C = prog.classes.get(cname)
+        for f in sorted(C.methods.values(), key=lambda f: f.name):
+            lists = [p_ for p_ in f.params if "node_list" in p_ or p_ == "nodes"]
+            if not lists:
+                continue
+            for c in ast.walk(f.node):
+                if not (isinstance(c, ast.Call) and isinstance(c.func, ast.Attribute)
+                        and c.func.attr in ORDER_NORMALISING and c.args
+                        and isinstance(c.args[0], ast.Name) and c.args[0].id in lists):
+                    continue
+                n += 1
+                lst = c.args[0].id
+                restored = any(isinstance(x, ast.Call) and
+                               ast.unparse(x.func) in ("np.argsort", "numpy.argsort")
+                               and x.args and lst in ast.unparse(x.args[0])
+                               for x in ast.walk(f.node))
+                presorted = any(isinstance(x, ast.Call) and
+                                ast.unparse(x.func) in ("sorted", "np.sort") and x.args
+                                and lst in ast.unparse(x.args[0]) for x in ast.walk(f.node))
+                ok = restored and not presorted or restored
+                run.oblige("X7", f"{f.qualname}:{c.func.attr}({lst})", ok, sample={
+                    "where": f"{f.module.relpath}:{c.lineno}"})
+                if not ok:
+                    run.add("X7", f"{f.qualname}/order/{lst}", f"{f.module.relpath}:{c.lineno}",
+                            f"{f.qualname} builds its result from "
+                            f"`{ast.unparse(c)}`: igraph returns the induced subgraph in "
+                            f"increasing vertex order, so for an unsorted `{lst}` the rows "
+                            f"and columns of the result belong to other nodes than the "
+                            f"caller's list says (no argsort of `{lst}` maps them back)")
+    run.count("X7", n)
 
 
 def x6(run: Run, prog: Program):
@@ -420,4 +477,7 @@ def check(run: Run, prog: Program, cy: CyProgram, sites):
     run.floor("X3 call sites", n, 4)
     x4(run, prog)
     x6(run, prog)
+    run.rule("X7", "results built through igraph's order-normalising subgraph() are "
+             "mapped back to the caller's node order")
+    x7(run, prog)
     m4(run, prog, "X5", "core/interacting_networks.py")
